@@ -166,7 +166,7 @@ pub fn run(a: &Args) -> i32 {
     let rt = tokio::runtime::Builder::new_multi_thread().worker_threads(8).max_blocking_threads(128).enable_all().build().unwrap();
     let mut out = util::NdJson::create(&a.req("out"));
     let full = a.flag("full");
-    let entries: Vec<&str> = if full { vec!["listener", "listener_shutdown", "drain", "serve_connection", "serve_connection_cancel", "adopt"] } else { vec!["listener", "drain", "serve_connection_cancel", "adopt"] };
+    let entries: Vec<&str> = if full { vec!["listener", "listener_shutdown", "drain", "serve_connection", "serve_connection_cancel", "adopt", "adopt_partial"] } else { vec!["listener", "drain", "serve_connection_cancel", "adopt", "adopt_partial"] };
     let client_causes = ["clean_close", "socket_loss", "text_frame", "malformed_frame", "inline_panic"];
     let phases = ["idle", "inline_running", "off_parked", "outbound_nonempty", "during_connect"];
     let mut scenarios: Vec<(String, String, String, usize)> = vec![]; // entry, cause, phase, concurrent connections
@@ -236,10 +236,11 @@ pub fn run(a: &Args) -> i32 {
                 let shared = server.into_shared();
                 let (c, s) = tokio::io::duplex(1 << 16);
                 duplex_client = Some(c);
-                rt.spawn(async move { let ws = shared.adopt_upgraded(s).await; let _ = shared.serve_connection(ws).await; })
+                let partial = entry == "adopt_partial";
+                rt.spawn(async move { let ws = if partial { shared.adopt_upgraded_partially_read(s, vec![]).await } else { shared.adopt_upgraded(s).await }; let _ = shared.serve_connection(ws).await; })
             }
         };
-        let handshake_possible = !(entry == "adopt" && cause == "bad_handshake");
+        let handshake_possible = !(entry.starts_with("adopt") && cause == "bad_handshake");
         if !handshake_possible { server_task.abort(); count -= 1; continue; }
         // clients
         let frames_all: Arc<Mutex<Vec<Vec<(u8, String)>>>> = Arc::new(Mutex::new(vec![]));
